@@ -44,3 +44,5 @@ Definition mode_fn (target : option N) (m other : update_mode) : N -> update_mod
               | Some t => if N.eqb name t then m else other
               | None => m
               end.
+
+Definition sstore_ok (inp : depgraph_in) (s : store) : string := if store_okb inp s then "(store_ok)" else "(store_bad)".
